@@ -6,7 +6,7 @@
 
    Only statements, closed by [exact] / a few lines of glue.  Heights and sats are N; the
    statements hold for all of them (u32 / u64 bounds are not needed). *)
-From OrdV Require Import Base.Prelude Generated Ord.Sat Proofs.Sat_proofs Proofs.Sat_count Proofs.Sat_charms.
+From OrdV Require Import Base.Prelude Generated Ord.Sat Proofs.Sat_proofs Proofs.Sat_count Proofs.Sat_palindrome Proofs.Sat_charms.
 
 (* The epoch table of the code is the cumulative subsidy: entry e = sum of 210000 * (50 coins >> i), i < e. *)
 Theorem C29_table_is_cumulative_subsidy : STARTING_SATS = cumulative 34 0 0.
@@ -86,11 +86,12 @@ Theorem C29_common_iff_rarity_common : forall n, n < SAT_SUPPLY ->
 Proof. exact sat_common_iff. Qed.
 
 (* Charms derived from the sat: nineball = mined in block 9, coin = multiple of COIN_VALUE,
-   exactly the charm of its rarity (none for common), palindrome bit = Sat::palindrome, which
-   does not overflow below the supply.  (That Sat::palindrome computes "decimal digits read the
-   same backwards" is not proved here: tied by correspondence and the harness oracle only.) *)
-Theorem C29_charms_partial : forall n, n < SAT_SUPPLY ->
+   exactly the charm of its rarity (none for common), palindrome = the decimal digits of the sat
+   number (decimal_digits_le: n mod 10, n / 10 mod 10, ... until 0) read the same backwards;
+   Sat::palindrome does not overflow below the supply. *)
+Theorem C29_charms : forall n, n < SAT_SUPPLY ->
   exists h o p, sat_height n = Ok h /\ sat_third n = Ok o /\ sat_palindrome n = Ok p /\
+    (p = true <-> decimal_digits_le n = rev (decimal_digits_le n)) /\
     sat_nineball n = (h =? 9) /\
     sat_coin n = (n mod 100000000 =? 0) /\
     sat_charms n = Ok (charms_spec (h =? 9) p (n mod 100000000 =? 0) (rarity_spec h o)).
@@ -116,5 +117,5 @@ Print Assumptions C29_beyond_supply_panics.
 Print Assumptions C29_attributes.
 Print Assumptions C29_rarity_classification.
 Print Assumptions C29_common_iff_rarity_common.
-Print Assumptions C29_charms_partial.
+Print Assumptions C29_charms.
 Print Assumptions C29_rarity_supply_counts.
